@@ -177,8 +177,13 @@ fn snappy_compress(_data: &[u8], _level: u32) -> io::Result<Cow<[u8]>> {
 // --------- zstd ---------
 
 #[cfg(feature = "zstd")]
-fn zstd_decompress<R: io::Read>(data: R, out: &mut Vec<u8>) -> io::Result<()> {
-    zstd::stream::copy_decode(data, out)
+fn zstd_decompress<R: io::Read>(mut data: R, out: &mut Vec<u8>) -> io::Result<()> {
+    // The streaming decoder is re-entered with an empty input every time the source reports
+    // `ErrorKind::Interrupted`, and zstd gives up ("no forward progress") after a few such
+    // calls in a row. Fetch the whole block first, the caller already bounds it to its length.
+    let mut input = Vec::new();
+    data.read_to_end(&mut input)?;
+    zstd::stream::copy_decode(input.as_slice(), out)
 }
 
 #[cfg(not(feature = "zstd"))]
